@@ -93,8 +93,9 @@ def byteslit(b):
     return '[' + '; '.join(str(x) for x in bytes(b)) + ']'
 
 
-def collect():
-    """Everything Tables.v is made of, as plain Python data (also used by the harness)."""
+def collect(strict=True):
+    """Everything Tables.v is made of, as plain Python data (also used by the harness).  strict=False
+    (harness only, for the model-less failing-input search): unknown check functions are kept by name."""
     info = {'classes': {}, 'names': []}
     names = []
     for suf, mod, cname in CLASSES:
@@ -106,9 +107,9 @@ def collect():
         checks = []
         for fn in klass._get_checks():
             nm = fn.__name__
-            if nm not in CHECK_IDS:
+            if nm not in CHECK_IDS and strict:
                 raise ValueError(f'unknown check function {nm} in {cname}')
-            checks.append(CHECK_IDS[nm])
+            checks.append(CHECK_IDS.get(nm, nm))
         ent = {'klass': klass, 'layout': lay, 'size': size, 'checks': checks}
         if suf in ANALYZE_FAMILY:
             ent['sizeof_hdr'] = int(klass.sizeof_hdr)
@@ -198,7 +199,7 @@ _INFO = None
 def info():
     global _INFO
     if _INFO is None:
-        _INFO = collect()
+        _INFO = collect(strict=False)
     return _INFO
 
 
@@ -326,7 +327,13 @@ def gen_valid(rng, suf, be):
             h = klass(endianness=code_of(be))
             if rng.random() < 0.9:
                 h.set_data_dtype(rng.choice(supported_codes(suf)))
-            if rng.random() < 0.9:
+            if suf in ('nifti1', 'nifti1pair') and rng.random() < 0.2:
+                # FreeSurfer large-vector shapes: dim[1] = -1, the length goes to glmin
+                h.set_data_shape((rng.choice([32768, 40000, 163841, 2 ** 31 - 1]), 1, 1) +
+                                 tuple(rng.choice([1, 2, 5]) for _ in range(rng.randrange(0, 3))))
+                if rng.random() < 0.5:
+                    h.set_zooms(tuple(rng.choice([0.5, 1.0, 2.0]) for _ in h.get_data_shape()))
+            elif rng.random() < 0.9:
                 nd = rng.randrange(1, 8)
                 big = 32767 if 'nifti2' not in suf else 2 ** 40
                 h.set_data_shape(tuple(rng.choice([1, 1, 2, 3, 5, 7, 64, big]) for _ in range(nd)))
@@ -471,7 +478,12 @@ def mgh_flag_zero(b):
     return len(b) >= off + 2 and b[off:off + 2] == b'\0\0'
 
 
+HAVE_MODEL = True
+
+
 def report(chk, case, pred, known, dis, model_out=None):
+    if not HAVE_MODEL:       # model-less failing-input search: only the direct predicates count
+        dis = []
     if pred:
         if known:
             chk.known('S-C10a', 'MGHHeader built from bytes whose goodRASFlag is 0 resets delta/Mdc/Pxyz_c/goodRASFlag '
@@ -755,6 +767,12 @@ def part_c_case(chk, rng, src, dst, hdr, check, lines, recs):
             repaired = check and any(not (np.float64(z) > 0) for z in zs)   # check_fix may repair such zooms
             if not repaired and (len(zs) != len(zd) or any(not (np.float64(a) == np.float64(c) or (np.isnan(a) and np.isnan(c))) for a, c in zip(zs_c, zd))):
                 pred = f'conversion changed the zooms {zs} -> {zd}'
+        if pred is None and 'pixdim' in hdr.structarr.dtype.names and 'pixdim' in new.structarr.dtype.names:
+            # pixdim[0] (qfac of NIfTI) is not a zoom: it has to be carried over like any same-named field
+            q1, q2 = float(hdr['pixdim'][0]), float(new['pixdim'][0])
+            repaired = check and dst.startswith('nifti') and q1 not in (-1.0, 1.0)     # _chk_qfac may repair it
+            if not repaired and not (q1 == q2 or (np.isnan(q1) and np.isnan(q2))):
+                pred = f'same-named field pixdim[0] (qfac) not preserved by the conversion: {q1} -> {q2}'
         if pred is None and not check:
             sl = {n: (w, c, k) for n, o, w, c, k in info()['classes'][src]['layout']}
             for n, o, w, c, k in info()['classes'][dst]['layout']:
@@ -804,10 +822,11 @@ def run(chk: Check):
                        'conversions: source dim[0] in 0..7 (valid headers); other values are outside the modelled domain']
     chk.build(gen_tables=gen_tables)
     chk.run_probes()
-    if not chk.model_ok:
-        return
-    global _INFO
+    global _INFO, HAVE_MODEL
     _INFO = None
+    # when the model cannot be built (e.g. the table translator refuses a changed class) the cases are still
+    # generated and the property predicates evaluated directly on the implementation: the failing-input search
+    HAVE_MODEL = bool(chk.model_ok)
     inf = info()
     rng = chk.rng
     nb = native_be()
@@ -908,13 +927,15 @@ def run(chk: Check):
                 for _ in range(chk.n(4, 60)):
                     be = r.randrange(2)
                     h = gen_valid(r, src, be)
-                    if r.random() < 0.25:
+                    if r.random() < 0.4:
                         with warnings.catch_warnings():
                             warnings.simplefilter('ignore')
                             conv_perturb(r, src, h)
                     for check in (False, True):
                         part_c_case(chk, r, src, dst, h, check, lines, crecs)
-    mod = run_model(PROP, lines)
+    mod = run_model(PROP, lines) if HAVE_MODEL else {}
+    if not HAVE_MODEL:
+        drecs, srecs = [], []
     for j, (suf, be, exp) in enumerate(drecs):
         if mod.get(f'd{j}') != exp:
             chk.disagreements += 1
@@ -931,7 +952,8 @@ def run(chk: Check):
     part_b_compare(chk, brecs, mod)
     part_c_compare(chk, crecs, mod)
     chk.extra['unproved_statements'] = UNPROVED
-    vm_sample(chk, arecs, brecs)
+    if HAVE_MODEL:
+        vm_sample(chk, arecs, brecs)
 
 
 def part_a_mgh_probe(chk, b, lines, recs):
@@ -974,6 +996,8 @@ def conv_perturb(rng, suf, h):
         h['sizeof_hdr'] = rng.choice([0, 540, 348])
         if suf.startswith('nifti'):
             h['qform_code'] = rng.choice([7, 1])
+    if rng.random() < 0.5:        # left-handed source (qfac -1); also a legal field value for Analyze / SPM
+        h['pixdim'][0] = -1
 
 
 UNPROVED = [
